@@ -46,6 +46,8 @@ func c13Snapshot(f dbsm.IConcurrentStateMachine) (dbsm.IConcurrentStateMachine, 
 	if err != nil {
 		return nil, err
 	}
+	// an update applied between prepare and save (dragonboat saves concurrently with Update): not part of the image
+	_, _ = f.Update([]dbsm.Entry{{Index: 1 << 40, Cmd: mustJSON(kv.Update{Op: kv.UpdateOpSet, KVPair: kv.Pair{Key: "/after-prepare", Value: "x"}})}})
 	var buf bytes.Buffer
 	if err := f.SaveSnapshot(ctx, &buf, nil, nil); err != nil {
 		return nil, err
